@@ -176,6 +176,9 @@ class Evaluator:
                 return a.scale(Fraction(1, 2 ** int(b.c)))
             if base == "Div" and b.is_const() and b.c != 0:
                 return a.scale(Fraction(1) / b.c)
+            if base in ("BitOr", "BitAnd", "BitXor") and a.is_const() and b.is_const() and a.c.denominator == 1 and b.c.denominator == 1:
+                x, y = int(a.c), int(b.c)
+                return Aff.const({"BitOr": x | y, "BitAnd": x & y, "BitXor": x ^ y}[base])
             return TOP
         if "un" in rv and rv["un"] == "Neg":
             a = self.operand(rv["a"], depth + 1)
